@@ -1,4 +1,5 @@
 import PmtilesModel.Proofs.Build
+import PmtilesModel.Proofs.F32Sched
 /-!
 # C05 — Written directories: root within first 16 KiB, root+leaves reproduce entries
 
@@ -95,5 +96,42 @@ theorem opt_terminates (budget : Nat) (es : List Entry) (ls0 : Nat) (next : Nat 
   · exact ⟨_, rfl⟩
   · exact optimizeLoop_terminates ser budget es next hgrow hsmall (es.length + 1) ls0 (by omega) (by omega)
 
+
+
+/-! ## The code's own schedule: float32 `leafSize *= 1.2`, bit-exact (Model/F32Sched.lean)
+
+`opt_terminates` above takes "the schedule strictly grows" as a hypothesis.  The three theorems
+below discharge it for the arithmetic the code really performs: IEEE-754 binary32 multiplication
+by the binary32 constant nearest 1.2, round-to-nearest-even, then truncation to `int`. -/
+
+/-- **every `leafSize *= 1.2` raises `int(leafSize)` by at least 512**, for every finite float32
+    value ≥ 4096 (all the clamp lets through); the value stays normal and ≥ 4096 -/
+theorem f32_schedule_grows (x : F32.F32) (hn : F32.Normal x) (h12 : 12 ≤ x.e) :
+    F32.trunc x + 512 ≤ F32.trunc (F32.mul12 x) ∧ F32.Normal (F32.mul12 x) ∧ 12 ≤ (F32.mul12 x).e :=
+  F32.trunc_grows x hn h12
+
+/-- **`optimizeDirectories` terminates with its own float32 schedule**, from every initial value
+    the clamp can produce, within `len(entries) + 1` rounds — no hypothesis on the schedule left -/
+theorem opt_terminates_f32 (budget : Nat) (es : List Entry) (x0 : F32.F32)
+    (hn : F32.Normal x0) (h12 : 12 ≤ x0.e)
+    (hsmall : ∀ l : List Entry, l.length ≤ 1 → (ser l).length ≤ budget) :
+    ∃ b, F32.optimizeF ser budget es x0 (es.length + 1) = some b ∧ OptResult ser budget es b := by
+  unfold F32.optimizeF
+  split
+  · rename_i hc
+    exact ⟨_, rfl, hc.2, Or.inl ⟨rfl, rfl, rfl, rfl⟩⟩
+  · obtain ⟨b, hb⟩ := F32.optimizeLoopF_terminates ser budget es hsmall (es.length + 1) x0 hn h12 (by omega) (by omega)
+    exact ⟨b, hb, F32.optimizeLoopF_result ser budget es _ x0 b hn h12 hb⟩
+
+/-- the clamp value 4096 is such an initial value (it is THE initial value for every list of fewer
+    than 14 336 000 entries, since then `float32(n)/3500 ≤ 4096`) -/
+theorem f4096_ok : F32.Normal F32.f4096 ∧ 12 ≤ F32.f4096.e ∧ F32.trunc F32.f4096 = 4096 := by
+  refine ⟨⟨by decide, by decide⟩, by decide, by decide⟩
+
+-- tests of the bit-exact model against values computed by Go (float32 4096·1.2 = 4915.2002 =
+-- 0x45999A · 2^-11 …; a tie case is exercised by the `f32mul` lines of the check)
+example : F32.trunc (F32.mul12 F32.f4096) = 4915 := by decide
+example : F32.bits F32.f4096 = 0x45800000 := by decide
+example : F32.bits (F32.mul12 F32.f4096) = 0x4599999A := by decide
 
 end Pm.C05
